@@ -45,7 +45,7 @@ def site_of(where):
     except Exception:
         dem = chain
     for d in dem:
-        if d.startswith('std::') or d.startswith('__gnu') or d.startswith('vec3::') or d.startswith('node::operator') or d.startswith('void std::') or d.startswith('edge::edge'):
+        if d.startswith('std::') or d.startswith('.omp_outlined') or d.startswith('__gnu') or d.startswith('vec3::') or d.startswith('node::operator') or d.startswith('void std::') or d.startswith('edge::edge'):
             continue
         return re.sub(r'\(.*', '', d)
     return re.sub(r'\(.*', '', dem[0]) if dem else '?'
@@ -59,7 +59,7 @@ def main(chk):
                     'libstdc++ models listed in irsym/models.py; valgrind memcheck as replay oracle only', 'z3 for path feasibility under symbolic coordinates']
     chk.assumptions += ['closed outward input mesh in generic position; l_min > 0']
     names = ['T4', 'T5'] if quick else ['T4', 'T5', 'T6', 'T6b']
-    chk.bounds = {'harness': 'h_refine: real constructor + initialize_cell_properties, then one of ' + ', '.join(OPS.values()), 'meshes': names,
+    chk.bounds = {'solver scenarios': 'h_sim: real solver constructor, run_iteration (1-2 iterations, I/O stubbed) and destructor on two-cell tissues with concrete geometry', 'harness': 'h_refine: real constructor + initialize_cell_properties, then one of ' + ', '.join(OPS.values()), 'meshes': names,
                   'edges': 'every edge for split/merge/swap; vectors are at capacity (size == capacity) so the first add_node/add_face reallocates',
                   'outside': 'thread schedules, file parsing, ball pivoting / hole filling, sprintf, any path no harness explores'}
     sess = api.Session(ir, mode='real')
@@ -140,9 +140,69 @@ def main(chk):
         else:
             chk.note('memory report %s in %s not confirmed by valgrind (%r): recorded, not reported as violation' % (kind, site, rep.get('first') or rep.get('what')))
             chk.ob('unconfirmed report %s/%s' % (kind, site), 'unknown', False, 0, detail=rep)
+    sim_scenarios(chk, reports_seen=set(k for k in reports))
     chk.finish(level='other', explanation=(
         'Memory monitors of the symbolic interpreter on %d explored paths of the refinement/compaction harness (symbolic coordinates, path feasibility by z3). '
         'A path with a report is a violation only if valgrind memcheck confirms an error of the same class on the native g++ build at the solver model.' % npaths))
+
+def asan_replay(binary, entry, din, iin):
+    line = entry + ' %d %d' % (len(din), len(iin)) + ''.join(' ' + float(d).hex() for d in din) + ''.join(' %d' % i for i in iin) + '\n'
+    try:
+        p = subprocess.run([binary], input=line, capture_output=True, text=True, timeout=300, env=dict(os.environ, ASAN_OPTIONS='new_delete_type_mismatch=1:detect_leaks=0:halt_on_error=1'))
+    except subprocess.TimeoutExpired:
+        return {'ran': False, 'what': 'timeout'}
+    err = p.stderr
+    kinds = []
+    if 'new-delete-type-mismatch' in err or 'alloc-dealloc-mismatch' in err: kinds.append('bad-free')
+    if 'heap-use-after-free' in err or 'heap-buffer-overflow' in err or 'stack-buffer-overflow' in err: kinds.append('invalid-access')
+    m = re.search(r'ERROR: AddressSanitizer: ([^\n]*)', err)
+    frames = re.findall(r'#\d+ 0x[0-9a-f]+ in ([^\n]*)', err)[:5]
+    return {'ran': True, 'rc': p.returncode, 'kinds': kinds, 'first': ((m.group(1) if m else '') + ' | ' + ' ; '.join(frames))[:600]}
+
+def sim_scenarios(chk, reports_seen):
+    """(b) first iteration of the real solver on freshly constructed cells: is every field read by the contact phase written before?
+    (c) construction and destruction of the solver (polymorphic members owned through base-class unique_ptr)."""
+    from irsym import envstubs
+    ir = build.build_ir(['h_sim.cpp'])
+    nat = build.build_native(['h_sim.cpp'])
+    ov = {}
+    ov.update(envstubs.fs_stubs()); ov.update(envstubs.writer_stubs()); ov.update(envstubs.divide_stub())
+    def setup(it): it.strict_undef = False
+    sess = api.Session(ir, mode='ieee', overrides=ov, setup=setup)
+    scen = [
+        ('two adjacent epithelial tetrahedra, 2 iterations', [2, 2, 0, 0, 0, 0, 2, 2, 0, 0, 0, 0], [0.001, 1.0, 0.3, 0.2, 0.2, 0.01, 1.0, 0, 0, 0] + [1.0, 0, 0, 0, 0.001, 1e9, 0.0] + [1.0, 1.2, 0.1, 0.1, 0.001, 1e9, 0.0]),
+        ('epithelial octahedron inside an ECM octahedron, 1 iteration', [2, 1, 1, 1, 0, 1, 2, 1, 0, 0], [0.001, 1.0, 0.3, 0.2, 0.2, 0.01, 1.0, 0, 0, 0] + [0.5, 0, 0, 0, 0.001, 1e9, 0.0] + [2.0, 0.0, 0.0, 0.0, 0.001, 1e9, 0.0]),
+    ]
+    found = {}
+    for (label, iin, din) in scen:
+        r = sess.run('h_sim', din, iin)
+        chk.paths += 1
+        reps = list(r.mem_reports)
+        if r.status == 'memory': reps.append(r.error)
+        elif r.status != 'ok':
+            chk.fail_closed.append('solver scenario %s: %s %r' % (label, r.status, r.error)); continue
+        nm = 'solver life cycle/%s/no invalid memory access, no decision on uninitialised data, no mismatched delete' % label
+        chk.ob(nm, 'violated' if reps else 'proved', True, 0, detail=[(k, m_) for (k, m_, w) in reps][:4] if reps else None)
+        for (kind, msg, where) in reps:
+            site = site_of(where)
+            found.setdefault((kind, site), (label, iin, din, msg, where))
+    chk.functions |= sess.functions_called
+    for (kind, site), (label, iin, din, msg, where) in sorted(found.items()):
+        want = CLASS.get(kind)
+        if want == 'bad-free':
+            rep = asan_replay(build.build_native(['h_sim.cpp'], opt='-fsanitize=address'), 'h_sim', din, iin)
+            rep['build'] = 'g++ -O2 -fsanitize=address (replay oracle)'
+        else:
+            rep = valgrind_replay(nat, 'h_sim', din, iin)
+            if want not in rep.get('kinds', []) and want == 'uninitialised':
+                rep = valgrind_replay(build.build_native(['h_sim.cpp'], opt='-O0'), 'h_sim', din, iin)
+                rep['build'] = 'g++ -O0'
+        rep.update(irsym_report={'kind': kind, 'msg': msg, 'where': where}, din=din, iin=iin, scenario=label)
+        if rep.get('ran') and want in rep.get('kinds', []):
+            chk.violation('C10/%s/%s' % (kind, site), '%s in %s (%s); native oracle: %s' % (kind, site, msg, rep.get('first')), rep)
+        else:
+            chk.note('memory report %s in %s not confirmed natively (%r)' % (kind, site, rep.get('first') or rep.get('what')))
+            chk.ob('unconfirmed report %s/%s' % (kind, site), 'unknown', False, 0, detail=rep)
 
 if __name__ == '__main__':
     run_check('C10', main)
